@@ -265,6 +265,7 @@ func runGroup(t *vk.T, fx string, g group) {
 		for _, q := range outs {
 			if _, err := pdfcmp.Validate(filepath.Join(refRoot, q)); err != nil {
 				t.Count("variant_reference_output_invalid/"+g.v.Name, 1)
+				t.Count("reference_output_invalid_for_some_variant/op="+op.Name, 1)
 				return
 			}
 		}
